@@ -126,9 +126,16 @@ class _PokTranslator(_util.OverrideableDataDesc):
             params.extend(kwoparams)
         if to_use:
             raise ValueError("Parameters not found: " + ' '.join(to_use))
+        swap = {self.func: self}
+        try:
+            # a stored signature (modifiers.annotate) names the function
+            # behind a bound method
+            swap[self.func.__func__] = self
+        except AttributeError:
+            pass
         self.__signature__ = sig.replace(
             parameters=params,
-            sources=_signatures.copy_sources(sig.sources, {self.func:self}))
+            sources=_signatures.copy_sources(sig.sources, swap))
 
     def _sigtools__autoforwards_hint(self, func):
         ast = _util.get_ast(self.func)
